@@ -49,7 +49,7 @@ class C07(SessimProp):
     @property
     def counts(self):
         n = len(self.sites)
-        return {"quick": n, "thorough": n * len(sites.PLACEMENTS)}
+        return {"quick": n * 5, "thorough": n * len(sites.PLACEMENTS)}
 
     wall_caps = {"quick": 200, "thorough": 1200}
 
@@ -57,7 +57,13 @@ class C07(SessimProp):
         n = len(self.sites)
         key, imports, expr = self.sites[index % n]
         if tier == "quick":
-            placement = rng.choice(sites.PLACEMENTS)
+            # five placements per site: inside a function (a fresh frame with an empty value stack, where a
+            # value that is not pushed back is missed at once) and four more drawn from the seed
+            j = index // n
+            if j == 0:
+                placement = "fun1"
+            else:
+                placement = rng.choice([p for p in sites.PLACEMENTS if p != "fun1"])
         else:
             placement = sites.PLACEMENTS[(index // n) % len(sites.PLACEMENTS)]
         return {"site": key, "imports": imports, "expr": expr, "placement": placement}
